@@ -187,3 +187,9 @@ SUITES["C03"]["quick"] += [dict(_NH)]
 SUITES["C03"]["thorough"] += [dict(_NH)]
 SUITES["C20"]["thorough"] += [dict(_NH)]
 PROP_INFO["X_NHT"] = dict(X); SUITES["X_NHT"] = {"quick": [dict(_NH)], "thorough": [dict(_NH)]}
+
+# C11's batches: the regular and ADD-PATH world modes too (slow neighbours make whole histories of a prefix reach the packer as one batch)
+SUITES["C11"]["quick"] += [{"family": "world", "mode": "", "share": 1}, {"family": "world", "mode": "addpath", "share": 1}]
+SUITES["C11"]["thorough"] += [{"family": "world", "mode": "", "share": 1}, {"family": "world", "mode": "addpath", "share": 1}]
+# C20 quick also runs the collision family (its parked-connection leaks were only in C07's and the thorough suites)
+SUITES["C20"]["quick"] += [dict(_CO)]
